@@ -200,6 +200,53 @@ pub fn build<C: BlsSignatureImpl + Clone>(lib: &Lib, c: &Value, rng: &mut ChaCha
     Ok(TlBuilt { variants: cur, msg })
 }
 
+fn varint128(mut x: u128) -> Vec<u8> {
+    let mut out = vec![];
+    loop {
+        let b = (x & 0x7f) as u8;
+        x >>= 7;
+        if x == 0 {
+            out.push(b);
+            return out;
+        }
+        out.push(b | 0x80);
+    }
+}
+
+/// a time-lock ciphertext built from the public building blocks only, as any sender can (spec: CraftShapes)
+pub fn craft<C: BlsSignatureImpl>(tables: &Tables, pk: &PublicKey<C>, scheme: SignatureSchemes, id: &[u8], msg: &[u8], shape: &str) -> TimeCryptCiphertext<C> {
+    use sha2::Digest;
+    let alpha: [u8; 32] = if shape == "alpha_noncanon" { [0xff; 32] } else { let mut a = [0x5au8; 32]; a[0] = 0x11; a };
+    let n = msg.len() as u128;
+    let prefix: Vec<u8> = match shape {
+        "len_2p64" => varint128((1u128 << 64) + n),
+        "len_2p70" => varint128((1u128 << 70) + n),
+        "len_19groups" => {
+            let mut p = vec![0xffu8; 18];
+            p.push(0x03);
+            p
+        }
+        "len_max_minus" => varint128(u64::MAX as u128 - 1),
+        "len_plus1" => varint128(n + 1),
+        _ => varint128(n),
+    };
+    let mut frame = prefix;
+    frame.extend_from_slice(msg);
+    while frame.len() < 32 {
+        frame.push(0);
+    }
+    let salt = tables.salt("TIMELOCK");
+    let mut r_in = alpha.to_vec();
+    r_in.extend_from_slice(sha2::Sha256::digest(msg).as_slice());
+    let r = <C as HashToScalar>::hash_to_scalar(&r_in, &salt);
+    let idm: Vec<u8> = if scheme == SignatureSchemes::MessageAugmentation { [&enc_k::<C>(&pk.0)[..], id].concat() } else { id.to_vec() };
+    let k = <C as Pairing>::pairing(&[(<C as HashToPoint>::hash_to_point(&idm, crate::signcrypt::dst_of::<C>(scheme)), pk.0 * r)]);
+    let u = <C as Pairing>::PublicKey::generator() * r;
+    let v = <C as BlsTimeCrypt>::compute_v(k, &alpha);
+    let w = <C as BlsTimeCrypt>::compute_w(&alpha, &frame);
+    TimeCryptCiphertext { u, v, w, scheme }
+}
+
 pub fn make_sig<C: BlsSignatureImpl + Clone>(lib: &Lib, sr: &Value) -> Result<(String, <C as Pairing>::Signature), String> {
     let k = geti(sr, "k");
     let scheme = gets(sr, "scheme");
@@ -295,6 +342,32 @@ where
                     return Outcome::fail(json!({"path": "trait", "trait": tr.is_some(), "struct": got}), format!("spec predicts {want}, the trait-level BlsTimeCrypt::unseal and TimeCryptCiphertext::decrypt disagree"));
                 }
                 o.extra += 1;
+            }
+            // ciphertexts a sender can craft for the same key, identifier, scheme and message (spec: CraftShapes)
+            if let Some(crafts) = v.get("crafts").and_then(|c| c.as_object()) {
+                let c0 = &v["ct"];
+                let pk = lib.sk::<C>(geti(c0, "k")).public_key();
+                let id = lib.msg::<C>(&c0["id"]);
+                let scheme0 = scheme_of(gets(c0, "scheme0"));
+                for (shape, wantc) in crafts {
+                    let ct = craft::<C>(tables, &pk, scheme0, &id, &b.msg, shape);
+                    let r: Option<Vec<u8>> = ct.decrypt(&sig).into();
+                    let got = match &r {
+                        None => "None",
+                        Some(m) if *m == b.msg => "M",
+                        Some(_) => "other",
+                    };
+                    let ok = match wantc.as_str().unwrap_or("") {
+                        "M" => got == "M",
+                        "None" => got == "None",
+                        "MorNone" => got == "M" || got == "None",
+                        _ => false,
+                    };
+                    if !ok {
+                        return Outcome::fail(json!({"craft": shape, "out": got}), format!("a ciphertext crafted by a sender ({shape}): spec predicts {}, library returned {got}", wantc.as_str().unwrap_or("")));
+                    }
+                    o.extra += 1;
+                }
             }
             o
         }
